@@ -9,7 +9,7 @@ package block
 //@   ensures [fault] err != nil && store.has[height] ==> store.faulty
 
 //@ func (pb *pendingBase[T]) getPending(ctx) (items, err)
-//@   property C06
+//@   property C06 C07 C08
 //@   ensures [range] err == nil ==> len(items) == pb.store.height - pb.lastHeight
 //@   ensures [items] err == nil ==> forall k :: 0 <= k && k < len(items) ==> items[k] == ItemOf(pb.store, pb.lastHeight + 1 + k)
 //@   ensures [ahead] pb.lastHeight > pb.store.height && !pb.store.faulty ==> err != nil
@@ -29,7 +29,7 @@ package block
 //@   ensures [empty] !pb.store.faulty ==> (r <==> pb.store.height == pb.lastHeight)
 
 //@ func (pb *pendingBase[T]) setLastSubmittedHeight(ctx, newLastSubmittedHeight)
-//@   property C06
+//@   property C06 C07 C08
 //@   modifies pb.lastHeight, durable pb.store.meta[pb.metaKey], durable pb.store.metaHas[pb.metaKey]
 //@   ensures [monotone] pb.lastHeight == max(old(pb.lastHeight), newLastSubmittedHeight)
 //@   ensures [persisted] pb.lastHeight != old(pb.lastHeight) && !pb.store.faulty
@@ -37,7 +37,7 @@ package block
 //@   ensures [quiet] pb.lastHeight == old(pb.lastHeight) ==> pb.store.meta == old(pb.store.meta)
 
 //@ func (pb *pendingBase[T]) init() (err)
-//@   property C06
+//@   property C06 C07 C08
 //@   modifies pb.lastHeight
 //@   ensures [restart] err == nil && pb.store.metaHas[pb.metaKey] && old(pb.lastHeight) == 0
 //@                         ==> pb.lastHeight == le64dec(pb.store.meta[pb.metaKey])
@@ -218,6 +218,7 @@ package block
 //@   ensures [fail-no-effect] err != nil ==> m.store.faulty && StateOf(m.lastState) == old(StateOf(m.lastState)) && m.store.stateAt == old(m.store.stateAt) && m.store.hasState == old(m.store.hasState)
 
 //@ func (m *Manager) getHeaderSignature(header) (sig, err)
+//@   property C04
 //@   property C01 C03
 //@   ensures [signed] err == nil ==> Signed(SignerKey(m.signer.val), Payload(HdrOf(header)), val(sig)) && len(sig) > 0
 //@ func Manager.signaturePayloadProvider(h) (bz, err)
@@ -226,6 +227,7 @@ package block
 //@ pred U64OfTime(t) := ite(t >= 0, t, t + 18446744073709551616)
 
 //@ func (m *Manager) execCreateBlock(_, height, lastSignature, lastHeaderHash, _, batchData) (header, data, err)
+//@   property C04
 //@   property C01 C03 C11
 //@   requires [args] lastSignature != nil && batchData != nil
 //@   fresh header, data
@@ -248,6 +250,7 @@ package block
 //@   loop 1 invariant [len] len(blockData.Txs) == len(batchData.Batch.Transactions) && rangeindex >= -1 && batchData.Batch != nil && blockData != nil && header != nil
 
 //@ func (m *Manager) execApplyBlock(ctx, lastState, header, data) (s, err)
+//@   property C04 C05
 //@   property C01 C02
 //@   requires [args] data != nil
 //@   ensures [next] err == nil ==> s.LastBlockHeight == header.BaseHeader.Height && s.LastBlockTime == TimeOfU64(header.BaseHeader.Time)
@@ -259,6 +262,7 @@ package block
 //@   loop 1 after [same] sameSeq(rawTxs, data.Txs)
 
 //@ func (m *Manager) applyBlock(ctx, header, data) (s, err)
+//@   property C04 C05
 //@   property C01 C02
 //@   requires [args] data != nil
 //@   ensures [next] err == nil ==> s.LastBlockHeight == header.BaseHeader.Height && s.LastBlockTime == TimeOfU64(header.BaseHeader.Time)
@@ -267,6 +271,7 @@ package block
 //@   ensures [root] err == nil ==> val(s.AppHash) == Exec(val(m.lastState.AppHash), TxsId(data.Txs))
 
 //@ func (m *Manager) createBlock(ctx, height, lastSignature, lastHeaderHash, batchData) (header, data, err)
+//@   property C04
 //@   property C01
 //@   requires [args] lastSignature != nil && batchData != nil
 //@   fresh header, data
@@ -813,6 +818,7 @@ package block
 // ---- C06 / C08: the submission loops hand everything pending to the DA helper ------------------
 
 //@ func (m *Manager) createSignedDataToSubmit(ctx) (r, err)
+//@   property C07
 //@   property C06 C08
 //@   requires [wiring] m.pendingData != nil && m.pendingData.base != nil && m.pendingData.base.store == m.store && m.store != nil
 //@   observe gpd := call getPendingData
@@ -856,6 +862,7 @@ package block
 // submitted, next clause): nothing the loop remembers from earlier rounds lets it skip a round
 //@   loop 1 invariant [tick-checks-pending] recvCount("timer.C") == 1 ==> ie
 //@   loop 1 invariant [pending-is-loaded] ie && !ie.res0 ==> gph.count == 1
+//@   loop 1 invariant [checks-own-backlog] ie ==> ie.arg0 == m.pendingHeaders || ie.arg0 == m.pendingHeaders.base
 //@   loop 1 invariant [submit-exactly-pending] sub ==> gph && gph.res1 == nil && sub.arg2 == gph.res0
 //@   loop 1 invariant [submit-all-pending] gph && gph.res1 == nil && len(gph.res0) > 0 ==> sub
 //@   loop 1 invariant [once] sub.count <= 1
@@ -871,6 +878,7 @@ package block
 //@   loop 1 invariant [wakes-up-again] armed(timer)
 //@   loop 1 invariant [tick-checks-pending] recvCount("timer.C") == 1 ==> ie
 //@   loop 1 invariant [pending-is-loaded] ie && !ie.res0 ==> cs.count == 1
+//@   loop 1 invariant [checks-own-backlog] ie ==> ie.arg0 == m.pendingData || ie.arg0 == m.pendingData.base
 //@   loop 1 invariant [submit-exactly-created] sub ==> cs && cs.res1 == nil && sub.arg2 == cs.res0
 //@   loop 1 invariant [submit-all-created] cs && cs.res1 == nil && len(cs.res0) > 0 ==> sub
 //@   loop 1 invariant [once] sub.count <= 1
